@@ -1,30 +1,120 @@
 (* Properties/C01.v — Serialize and Unserialize are mutual inverses, in memory and over the CBOR wire;
-   the typed entry points agree with the untyped ones.  Statements only; proofs in Proofs/C01Round.v,
-   vocabulary (wire, ints_in_range, rt_kind, roundtrips, unser_typed) in Schema/SpecRT.v.
+   the typed entry points agree with the untyped ones.  Statements only; proofs in Proofs/C01*.v, vocabulary in
+   Schema/SpecRT.v (wire, ints_in_range, roundtrips, unser_typed) and Schema/C01Spec.v (swire, distinct_in, any_clean,
+   c01_scope, roundtrips_strong).
 
-   THE FULL STATEMENT (every schema kind; `≈` = equality up to the order of map entries, NaN ≈ NaN):
+   C01_roundtrip (every schema kind): for every environment and schema that is well-formed (Wf.wf_schema) and in
+   c01_scope, every raw value v in which no two entries of one map denote the same key under the schema
+   (distinct_in: the schema-directed no_key_collision, D19), every fuel f:
+       unser f e s v = Ok n  /\  ints_in_range n   ==>
+       exists w in strong wire form, at EVERY fuel f' >= 2*f:
+         validate f' e s n = Ok tt,  serialize f' e s n = Ok w,  unser f' e s w = Ok n,
+         unser f' e s (cbor_norm D w) = Ok n for every depth D,  and re-serializing gives w again.
+   The conclusion is plain equality `=` (of the model's ordered association lists, NaN = NaN structurally), which
+   implies the `≈` of the property text (Perm.perm_val is reflexive); no ≈ is needed because the model is
+   deterministic and Go's map order is quantification over permutations of the INPUT (C12).
 
-     C01_roundtrip (full statement) : forall words pu e s f v n,
-       wf_schema e s = true -> no_key_collision s v = true -> ints_in_range n = true ->
-       unser words pu f e s v = Ok n ->
-       exists f0 w, wire w = true /\ forall f', f0 <= f' ->
-         validate words pu f' e s n = Ok tt /\ serialize words pu f' e s n = Ok w /\
-         unser words pu f' e s w ≈ Ok n /\ (forall D, unser words pu f' e s (cbor_norm D w) ≈ Ok n) /\
-         (forall n2, unser words pu f' e s w = Ok n2 -> serialize words pu f' e s n2 ≈ Ok w).
+   c01_scope oneofs e s: all of int, float, string, bool, pattern, any, both enums, list, map, map-based object,
+   reference, scope, nested in any way through scopes / namespaces; with oneofs = true also one-of (int or string keys,
+   members objects / references / scopes) whose discriminator is not inlined, or inlined with a plain type in every
+   member (disc_plain: int / int enum without units, string, un-named string enum), under the extra hypothesis
+   any_clean n (homogeneous []any, map[any]any keyed by int64 only or string only).  That hypothesis is NECESSARY: a
+   finding of this proof, C01_roundtrip_oneof_any_refuted - OneOf.Validate / Serialize run the member's
+   ValidateCompatibility on the data and AnySchema's is stricter than its Unserialize; reproduced on the Go code.
 
-   PROVED below as C01_roundtrip_partial: exactly this statement, with `=` in place of `≈` and f0 = 2*f, for the
-   kinds `rt_kind`: int, float, string, bool, pattern, int enum, string enum (also over a named string type)
-   and lists of these nested to any depth — by induction on the fuel.  NOT closed here: `any`, maps (map_set
-   with converted keys: needs the no_key_collision hypothesis and `≈`), map-based objects (the three folds of
-   Proofs/C03Obj.v composed with the per-property round trip), one-of (discriminator re-attachment), references
-   and scopes (environment well-formedness).  For those kinds the same chain is evaluated on every generated case
-   by the correspondence check (`rt` ops of families structured / c01rt against the SDK with a real CBOR
-   encode/decode) and by the direct check of lib/props_c01.py. *)
+   STILL PARTIAL: a one-of whose INLINED discriminator property has units or a named string type is outside c01_scope:
+   the property re-reads the raw discriminator in its own way, and C01_roundtrip_inlined_named_refuted shows the full
+   statement is false there (a second finding, reproduced on the Go code); struct-mapped objects are Schema/XOps.v
+   (C01 of that model is another work package).  The earlier C01_roundtrip_partial (scalars and lists, no hypothesis
+   besides ints_in_range) stays. *)
 From Verif Require Import Base.Prelude Base.Str Base.Float Base.GoVal
-  Schema.Regex Schema.Units Schema.Syntax Schema.Ops Schema.Cbor Schema.SpecRT Proofs.OpsLemmas Proofs.C01Round.
+  Schema.Regex Schema.Units Schema.Syntax Schema.Ops Schema.Cbor Schema.Wf Schema.SpecRT Schema.C01Spec
+  Proofs.OpsLemmas Proofs.C01Round Proofs.CborNorm Proofs.C01Base Proofs.C01Wire Proofs.C01Thm.
 Open Scope string_scope.
 Open Scope Z_scope.
 
+Theorem C01_roundtrip : forall words pu oneofs e s f v n,
+  wf_schema e s = true -> c01_scope oneofs e s = true ->
+  distinct_in words pu f e s v = true ->
+  unser words pu f e s v = Ok n -> ints_in_range n = true ->
+  (oneofs = true -> any_clean n = true) ->
+  roundtrips_strong words pu e s n (2 * f).
+Proof. exact roundtrip_full. Qed.
+Print Assumptions C01_roundtrip.
+
+(* the same with the weaker wire predicate of Schema/SpecRT.v (the vocabulary of C01_roundtrip_partial) *)
+Theorem C01_roundtrip_wire : forall words pu oneofs e s f v n,
+  wf_schema e s = true -> c01_scope oneofs e s = true ->
+  distinct_in words pu f e s v = true ->
+  unser words pu f e s v = Ok n -> ints_in_range n = true ->
+  (oneofs = true -> any_clean n = true) ->
+  roundtrips words pu e s n (2 * f).
+Proof. exact roundtrip_full_wire. Qed.
+Print Assumptions C01_roundtrip_wire.
+
+(* the hypotheses are necessary: colliding keys (D19) ... *)
+Theorem C01_roundtrip_collision_refuted :
+  exists n, wf_schema c01_env0 c01_coll_schema = true /\ c01_scope false c01_env0 c01_coll_schema = true
+    /\ unser [] c01_nopu 3 c01_env0 c01_coll_schema c01_coll_raw = Ok n /\ ints_in_range n = true
+    /\ distinct_in [] c01_nopu 3 c01_env0 c01_coll_schema c01_coll_raw = false
+    /\ forall f', validate [] c01_nopu f' c01_env0 c01_coll_schema n <> Ok tt.
+Proof. exact roundtrip_collision_refuted. Qed.
+Print Assumptions C01_roundtrip_collision_refuted.
+
+(* ... and `any` data under a one-of that ValidateCompatibility does not accept (FINDING: reproduced on the SDK) *)
+Theorem C01_roundtrip_oneof_any_refuted :
+  exists n, wf_schema c01_env0 c01_oa_schema = true /\ c01_scope true c01_env0 c01_oa_schema = true
+    /\ distinct_in [] c01_nopu 6 c01_env0 c01_oa_schema c01_oa_raw = true
+    /\ unser [] c01_nopu 6 c01_env0 c01_oa_schema c01_oa_raw = Ok n /\ ints_in_range n = true
+    /\ any_clean n = false
+    /\ forall f', validate [] c01_nopu f' c01_env0 c01_oa_schema n <> Ok tt.
+Proof. exact roundtrip_oneof_any_refuted. Qed.
+Print Assumptions C01_roundtrip_oneof_any_refuted.
+
+(* outside c01_scope the full statement is false: an inlined discriminator of a named string type (FINDING) *)
+Theorem C01_roundtrip_inlined_named_refuted :
+  exists n, wf_schema c01_env0 c01_inl_schema = true /\ c01_scope true c01_env0 c01_inl_schema = false
+    /\ distinct_in [] c01_nopu 6 c01_env0 c01_inl_schema c01_inl_raw = true
+    /\ unser [] c01_nopu 6 c01_env0 c01_inl_schema c01_inl_raw = Ok n /\ ints_in_range n = true /\ any_clean n = true
+    /\ forall f', validate [] c01_nopu f' c01_env0 c01_inl_schema n <> Ok tt.
+Proof. exact roundtrip_inlined_named_refuted. Qed.
+Print Assumptions C01_roundtrip_inlined_named_refuted.
+
+(* Serialize's output - any schema, any input, any fuel - contains only int64 / float64 / string / bool / []any /
+   map[any]any / map[string]any, and no nil *)
+Theorem C01_serialize_emits_wire : forall words pu f e s v w,
+  serialize words pu f e s v = Ok w -> wire w = true.
+Proof. exact serialize_emits_wire. Qed.
+Print Assumptions C01_serialize_emits_wire.
+
+(* what CBOR does to a wire value: the result differs from it only in integer width and container type, is again
+   decodable, and every schema reads both alike; one level spelled out: non-negative integers become uint64, both
+   map types become map[any]any, floats stay float64 *)
+Theorem C01_cbor_norm_wire : forall D w, swire w = true ->
+  neq w (cbor_norm D w) /\ decodable (cbor_norm D w)
+  /\ forall words pu f e s, unser words pu f e s (cbor_norm D w) = unser words pu f e s w.
+Proof. exact cbor_norm_wire. Qed.
+Print Assumptions C01_cbor_norm_wire.
+
+Theorem C01_cbor_norm_wire_shape : forall D w, swire w = true ->
+  match w with
+  | VInt _ z => cbor_norm (S D) w = VInt (TInt (if 0 <=? z then U64 else I64)) z
+  | VFloat _ x => cbor_norm (S D) w = vf64 x
+  | VStr _ s => cbor_norm (S D) w = vstr s
+  | VBool _ b => cbor_norm (S D) w = vbool b
+  | VSlice _ _ l => cbor_norm (S D) w = VSlice t_any_slice false (map (cbor_norm D) l)
+  | VMap _ _ kvs => cbor_norm (S D) w = VMap t_any_map false (map (fun kv => (cbor_norm D (fst kv), cbor_norm D (snd kv))) kvs)
+  | _ => False
+  end.
+Proof. exact cbor_norm_wire_shape. Qed.
+Print Assumptions C01_cbor_norm_wire_shape.
+
+(* the strong wire form implies the weak one and decodability *)
+Theorem C01_swire_wire_decodable : forall w, swire w = true -> wire w = true /\ decodable w.
+Proof. exact swire_wire_decodable. Qed.
+Print Assumptions C01_swire_wire_decodable.
+
+(* the earlier, hypothesis-light statement for scalars, enums, pattern and lists of them (no wf / distinctness needed) *)
 Theorem C01_roundtrip_partial : forall words pu f e s v n,
   rt_kind s = true -> unser words pu f e s v = Ok n -> ints_in_range n = true ->
   roundtrips words pu e s n (2 * f).
@@ -61,9 +151,27 @@ Theorem C01_mapper_norm_invariant : forall u pu D v, plain_scalar v = true ->
 Proof. exact mapper_norm_invariant. Qed.
 Print Assumptions C01_mapper_norm_invariant.
 
-(* ---- non-vacuity: a list of integers given as uint64 and as a numeric string ---- *)
-Definition ex_env : env := mkEnv [] [] (mkOracles (fun _ => None) (fun _ => true)).
+(* ---- non-vacuity ---- *)
+(* a scope whose root object holds a map of lists (numeric string and uint64 items), a heterogeneous `any` list and
+   a reference to a second object (boolean word) *)
 Example C01_roundtrip_example :
+  exists n, unser c01_ex_words c01_nopu 8 c01_env0 c01_ex_schema c01_ex_raw = Ok n
+            /\ roundtrips_strong c01_ex_words c01_nopu c01_env0 c01_ex_schema n 16.
+Proof. exact roundtrip_full_example. Qed.
+(* a one-of with an INLINED string discriminator declared by its members (one reached through a reference), under a
+   property of a scope's root object; the raw discriminator is the number 7 *)
+Example C01_roundtrip_inlined_example :
+  exists n, unser [] c01_nopu 9 c01_env0 c01_ex2_schema c01_ex2_raw = Ok n
+            /\ roundtrips_strong [] c01_nopu c01_env0 c01_ex2_schema n 18.
+Proof. exact roundtrip_inlined_example. Qed.
+(* an integer-keyed one-of selected by the numeric string "1", member with an int and an `any` property *)
+Example C01_roundtrip_oneof_example :
+  exists n, unser [] c01_nopu 8 c01_env0 c01_ex1_schema c01_ex1_raw = Ok n
+            /\ roundtrips_strong [] c01_nopu c01_env0 c01_ex1_schema n 16.
+Proof. exact roundtrip_oneof_example. Qed.
+
+Definition ex_env : env := mkEnv [] [] (mkOracles (fun _ => None) (fun _ => true)).
+Example C01_roundtrip_partial_example :
   roundtrips [] (fun _ _ => None) ex_env (SList (SInt (Some 0) None None) None (Some 4))
              (VSlice (TSlice (TInt I64)) false [vi64 3; vi64 4]) 4.
 Proof.
